@@ -58,6 +58,10 @@ type vCliStep struct {
 	I    int               `json:"i,omitempty"`
 	Kind string            `json:"kind,omitempty"`
 	Args map[string]string `json:"args,omitempty"` // field -> absent | ok | bad
+	// ConnectBurst: these requests are sent and accepted without waiting for the process to come to
+	// rest in between (handlers run side by side); every vector has fingerprint = ok, by which the
+	// config seen at the hook is attributed to its connection
+	Burst []map[string]string `json:"burst,omitempty"`
 }
 
 type vCliSched struct {
@@ -473,6 +477,7 @@ type vCliConn struct {
 	hascfg  bool
 	cfg     sf.ClientConfig
 	hookIdx int
+	fp      string // burst connections: the fingerprint argument that identifies the connection at the hook
 }
 
 type vCliLog struct {
@@ -572,7 +577,7 @@ func (r *vCliRig) picture() vCliPic {
 			continue
 		}
 		r.known[id] = true
-		if n := len(r.conns); n > 0 && r.conns[n-1].hgoid == 0 {
+		if n := len(r.conns); n > 0 && r.conns[n-1].hgoid == 0 && r.conns[n-1].fp == "" {
 			r.conns[n-1].hgoid = id
 		}
 	}
@@ -582,7 +587,8 @@ func (r *vCliRig) picture() vCliPic {
 	for i, c := range r.conns {
 		if !c.hascfg {
 			for k, s := range seen {
-				if (c.hgoid != 0 && s.goid == c.hgoid) || (c.hgoid == 0 && i == len(r.conns)-1 && k >= c.hookIdx) {
+				if (c.fp != "" && k >= c.hookIdx && s.cfg.BridgeFingerprint == c.fp) ||
+					(c.fp == "" && ((c.hgoid != 0 && s.goid == c.hgoid) || (c.hgoid == 0 && i == len(r.conns)-1 && k >= c.hookIdx))) {
 					c.hascfg, c.cfg = true, s.cfg
 					if c.hgoid == 0 {
 						c.hgoid = s.goid
@@ -882,8 +888,54 @@ func (r *vCliRig) apply(s vCliStep) map[string]interface{} {
 	return nil
 }
 
+// applyBurst sends and lets through several requests in a row; the handlers run side by side
+func (r *vCliRig) applyBurst(s vCliStep) []map[string]interface{} {
+	if atomic.LoadInt32(&r.ldone) == 1 {
+		return nil
+	}
+	var evs []map[string]interface{}
+	first := len(r.conns)
+	for _, a := range s.Burst {
+		j := len(r.conns) + 1
+		sock, err := vCliDialSocks(r.ln.real.Addr().String(), vCliConcreteArgs(a, j))
+		if err != nil {
+			break
+		}
+		vCliHookMu.Lock()
+		hi := len(vCliHookSeen) - r.hook0
+		vCliHookMu.Unlock()
+		r.conns = append(r.conns, &vCliConn{sock: sock, hookIdx: hi, fp: vCliArgValue("fingerprint", "ok", j)})
+		evs = append(evs, map[string]interface{}{"ev": "Connect", "args": vCliFullArgs(a), "q": false})
+	}
+	for k := first; k < len(r.conns); k++ {
+		if !r.ln.offer(vCliAcc{pass: true}) {
+			for _, c := range r.conns[k:] {
+				c.sock.c.Close()
+			}
+			r.conns, evs = r.conns[:k], evs[:k-first]
+			break
+		}
+	}
+	return evs
+}
+
 func (r *vCliRig) run(sc vCliSched, tr *vCliTrace) {
 	for _, st := range sc.Steps {
+		if st.Op == "ConnectBurst" {
+			evs := r.applyBurst(st)
+			if len(evs) == 0 {
+				tr.Skipped++
+				continue
+			}
+			r.events = append(r.events, evs...)
+			p, err := r.quiesce()
+			if err != nil {
+				tr.Note = "quiescence: " + err.Error()
+				return
+			}
+			r.events = append(r.events, r.observe(p))
+			continue
+		}
 		ev := r.apply(st)
 		if ev == nil {
 			tr.Skipped++
